@@ -53,7 +53,7 @@ def io_models():
 
 
 def units():
-    DIM = int(os.environ.get("VERIF_IMG_MAXDIM", "64" if os.environ.get("VERIF_TIER_EFFECTIVE") == "thorough" else "24"))
+    DIM = int(os.environ.get("VERIF_IMG_MAXDIM", "64" if os.environ.get("VERIF_TIER_EFFECTIVE") == "thorough" else "32"))
     U = Unit("c20_image", "units/c20_image.cpp", stubs=STUBS,
              opts=dict(opaque_std=True, models=io_models(), ext_records={"_IO_FILE": [("g_opaque", "char")]}, rec_alias={"_IO_FILE": "verif_FILE"}))
     U.stub("fopen/fprintf/fwrite/fclose", "ASSUMED interface models of <stdio.h>: fwrite's precondition (range readable) is checked at each call; file contents are the recorded calls")
@@ -75,7 +75,7 @@ def units():
         src = "((const %s *)$4)[(%s * (long)$2 + %s) * %d + %s]" % (CT, srcrow, gx, PC, sel)
         val = "g_val_u8" if csz == 1 else "g_val_f32"
         eq = ("%s == %s" % (val, src)) if csz == 1 else ("FEQ(%s, %s)" % (val, src))
-        U.fn(nm, pre_call=state, arrays={"pixel": 1, "header": 1}, ptr_requires=False, nullable=["header"],
+        U.fn(nm, pre_call=state, arrays={"pixel": 1, "header": 1}, ptr_requires=False, nullable=["header"], timeout=1500, solver=["--sat-solver", "cadical"], flags=["--unwind", "16", "--unwinding-assertions"],
              requires=["$2 >= 0 && $2 <= %d && $3 >= 0 && $3 <= %d" % (DIM, DIM), "(long)$2 * $3 == 0 || __CPROVER_r_ok($4, (unsigned long)$2 * $3 * sizeof(*$4))", "__verif_exc == 0",
                        "g_hdr_calls == 0 && g_closed == 0 && g_rows == 0 && g_row_bytes_ok == 0", "g_expect_row_elems == (unsigned long)%d * $2 && g_comp_size == %d" % (NC, csz),
                        "g_row >= 0 && g_row < $3 && g_j >= 0 && g_j < %d * (long)$2" % NC],
@@ -101,9 +101,9 @@ def units():
 META = dict(
     level="other",
     level_text="writeImage in its six instantiations (PPM, PGM, PFM<float|vec3f|vec3fa|vec4f>) is extracted from /repo and proved by CBMC with loop contracts on its three nested loops against stdio interface models: every read of `pixel` lies inside the sizeX*sizeY elements it was given (pointer checks), every fwrite is handed a readable row of exactly N_COMP*sizeX components, exactly sizeY rows are written, the header receives (sizeX, sizeY), and -- for an arbitrary ghost row and component -- the value written is the selected channel of pixel (x, FLIP ? sizeY-1-y : y). The loops are closed by invariants (any iteration count) but the image dimensions are bounded in the harness.",
-    level_note="BOUNDED in the image dimensions (sizeX, sizeY <= 24 quick / 64 thorough): the row*sizeX index products against the sizeX*sizeY allocation make the SAT problem grow with the range of the dimensions; not counted as an unbounded proof. saveLog / event tracing (the second half of the statement) is NOT verified: stream formatting over std::list/vector/unordered_map and chrono is outside the extractor's subset. stdio is an assumed interface model.",
+    level_note="BOUNDED in the image dimensions (sizeX, sizeY <= 32 quick / 64 thorough): the row*sizeX index products against the sizeX*sizeY allocation make the SAT problem grow with the range of the dimensions; not counted as an unbounded proof. saveLog / event tracing (the second half of the statement) is NOT verified: stream formatting over std::list/vector/unordered_map and chrono is outside the extractor's subset. stdio is an assumed interface model.",
     explanation="CBMC function contracts + loop contracts (unbounded in iteration count) with image dimensions bounded by a harness assumption; stdio modelled by recording stubs. Bounded, not a proof; the tracing half of the property is not checked at all.",
     assumptions=["stdio interface models", "allocation never fails", "image dimensions bounded (stated bound)"],
-    bounded=["image dimensions sizeX, sizeY <= 24 (quick) / 64 (thorough)"],
+    bounded=["image dimensions sizeX, sizeY <= 32 (quick) / 64 (thorough)"],
     unverified=["saveLog / tracing JSON", "file system behaviour", "decodability of the emitted header text"],
 )
